@@ -40,7 +40,7 @@ m = {
                                    "replayed on the real crate by harness/ (spec -> impl), and traces recorded from the real crate are validated by TLC "
                                    "against spec/trace/Trace.tla (impl -> spec)"}],
     "checks": checks,
-    "notes": "fix: commits in /repo (recorded in KNOWN_FINDINGS.txt as fixed:): f6ae51b, 906e791, 928b9bd, 2d5a00a. Known findings (KNOWN_FINDINGS.txt): C01 stack overflow via protected counter-signature recursion, C07 tag 2/3 on indefinite bstr, C12 ClaimsSet encode, C14 tagged body at the recursion limit, C20 extra label 0.",
+    "notes": "fix: commits in /repo (recorded in KNOWN_FINDINGS.txt as fixed:): f6ae51b, 906e791, 928b9bd, 2d5a00a. Known findings (KNOWN_FINDINGS.txt): C01 stack overflow via protected counter-signature recursion, C07 tag 2/3 on indefinite bstr, C12 ClaimsSet encode, C14 tagged body at the recursion limit, C08 / C10 header map / key set at the recursion limit, C20 extra label 0.",
     "not_applicable": na,
 }
 json.dump(m, open(os.path.join(ROOT, "MANIFEST.json"), "w"), indent=1)
